@@ -285,7 +285,7 @@ def run(tier):
         assumptions=["'outgoing' invariant at a boundary with outward normal dir: u + dir * 2a/(gamma-1) (characteristic speed dir*u + a > 0)",
                      "total quantities of the returned state are evaluated by the harness from the property's definitions (C17)",
                      "TLC integers are 32 bit: exact records only where the returned state is a small rational"],
-        mc_runs=[("MC_Vars", "MC_Vars.cfg", 4)],
+        mc_runs=[("MC_Vars", "MC_Vars.cfg" if tier == "quick" else "MC_Vars_f.cfg", 4)],
         groups=[("Judge_Model", recs)], prefixes=["C16"], sig_of=sig_of)
 
 
